@@ -27,10 +27,13 @@ BOUNDSCHECK_TIERS = ("thorough",)
 
 
 def REQUIRED(tier):
-    return [f"t:{t}" for t in TRANSFORMS] + ["outputs_parsed", "outputs_compared", "spy:cwrite_calls", "regime:multi_block", "regime:subrange", "regime:multi_file_input", "regime:reader_with_history"]
+    return [f"t:{t}" for t in TRANSFORMS] + ["outputs_parsed", "outputs_compared", "spy:cwrite_calls", "regime:multi_block", "regime:subrange", "regime:multi_file_input", "regime:reader_with_history", "regime:single_read_over_64MiB"]
 
 
 def cases(tier, seed):
+    yield {"t": "huge", "tfactor": 3, "gulp": 70001, "pseed": int(seed) * 100003 + 999983}
+    if tier == "thorough":
+        yield {"t": "huge", "tfactor": 5, "gulp": 10**9, "pseed": int(seed) * 100003 + 999979}
     rng = np.random.default_rng([seed, 707])
     per = 60 if tier == "quick" else 1000
     k = 0
@@ -50,6 +53,41 @@ def cases(tier, seed):
                 gulp = int(rng.choice([1, 3, 7, 16, N, 10 * N, int(rng.integers(1, N))]))
                 yield {"t": t, "nbits": nbits, "N": N, "nchans": nch, "split": split, "start": start, "nsamps": nsamps, "gulp": gulp,
                        "pseed": int(seed) * 100003 + k}
+
+
+def _huge_case(case, ctx):
+    """One decimation whose single read exceeds 64 MiB (size-dependent reader paths): 1024 channels x 70001 samples at 8 bits."""
+    from sigpyproc.readers import FilReader
+
+    rng = np.random.default_rng([case["pseed"], 3])
+    N, nch, tf = 70001, 1024, int(case["tfactor"])
+    d = os.path.join(ctx.tmp, "huge")
+    os.makedirs(d, exist_ok=True)
+    X = rng.integers(0, 200, size=(N, nch), dtype=np.uint8)
+    src = os.path.join(d, "in.fil")
+    sigfile.write_fil(src, X, 8, fch1=1500.0, foff=-0.1, tsamp=1e-3)
+    out = os.path.join(d, "out.fil")
+    ctx.evaluated(); ctx.count("t:downsample"); ctx.count("regime:single_read_over_64MiB")
+    try:
+        FilReader(src).downsample(tf, 1, out, gulp=int(case["gulp"]), quiet=True, description="v")
+        dd, hl, raw = sigfile.parse_file(out)
+        n_out = N // tf
+        if len(raw) != n_out * nch:
+            ctx.violation("output-size:downsample:huge-read", f"{len(raw) // nch} output samples for {N} input samples, tfactor {tf} (expected {n_out}); gulp={case['gulp']}", case)
+            return
+        got = np.frombuffer(raw, dtype=np.uint8).reshape(n_out, nch).astype(np.float64)
+        idx = rng.choice(n_out, size=400, replace=False)
+        want = np.stack([X[i * tf : (i + 1) * tf].astype(np.float64).mean(axis=0) for i in idx])
+        if np.any(np.abs(got[idx] - want) >= 1.0):
+            bad = int(np.sum(np.any(np.abs(got[idx] - want) >= 1.0, axis=1)))
+            ctx.violation("values:downsample:huge-read", f"{bad} of 400 sampled output rows differ from the block means (gulp={case['gulp']}, tfactor={tf})", case)
+            return
+        ctx.nontrivial_case(case)
+    except Exception as exc:  # noqa: BLE001
+        ctx.violation(f"raised:downsample:huge-read:{type(exc).__name__}@{exc_site(exc)}", fmt_exc(exc), case)
+    finally:
+        for f in os.listdir(d):
+            os.unlink(os.path.join(d, f))
 
 
 def cases_boundscheck(tier, seed):
@@ -123,6 +161,10 @@ def _reader_check(ctx, case, path, want, label):
 def run_case(case, ctx):
     from sigpyproc.readers import FilReader
 
+    if case["t"] == "huge":
+        if getattr(ctx, "mode", "normal") == "normal":
+            _huge_case(case, ctx)
+        return
     t, nbits, nch = case["t"], case["nbits"], case["nchans"]
     start, nsamps, gulp = case["start"], case["nsamps"], case["gulp"]
     rng = np.random.default_rng([case["pseed"], 2])
@@ -166,6 +208,8 @@ def run_case(case, ctx):
         elif t == "apply_channel_mask":
             mask = rng.random(nch) < 0.4
             mval = int(rng.integers(0, min(2 ** min(nbits, 8), 64)))
+            if nbits == 32 and rng.random() < 0.5:   # any float is a legal fill for a 32-bit file
+                mval = float(rng.choice([-2.5, -0.75, -1000.0, 1.0e6, 0.125]))
             fil.apply_channel_mask(mask, mval, out, **rkw)
             want = seg.copy()
             want[:, mask] = mval
@@ -178,7 +222,10 @@ def run_case(case, ctx):
             nonident = start > 0 or nsamps < case["N"]
         elif t == "extract_chans":
             chans = rng.choice(nch, size=int(rng.integers(1, min(nch, 5) + 1)), replace=False)
-            bs = int(rng.choice([200, 1, 2]))  # small batches exercise the per-batch bookkeeping
+            if nch >= 5 and rng.random() < 0.3:   # an unsorted run of adjacent channels
+                a0 = int(rng.integers(0, nch - 4))
+                chans = np.array([a0, a0 + 2, a0 + 1, a0 + 3])
+            bs = int(rng.choice([200, 1, 2, 4]))  # small batches exercise the per-batch bookkeeping
             names = fil.extract_chans(chans, os.path.join(d, "oc"), batch_size=bs, **rkw)
             if len(names) != len(chans):
                 ctx.violation("file-count:extract_chans", f"{len(names)} files for {len(chans)} channels", case)
